@@ -20,6 +20,7 @@ import (
 
 type replayFile struct {
 	Harness string            `json:"harness"`
+	Setup   string            `json:"setup"`
 	Values  map[string]string `json:"values"`
 	Choices map[string]int    `json:"choices"`
 	Params  map[string]int    `json:"params"`
@@ -213,6 +214,9 @@ func RunReplays(harnesses map[string]func(), setups map[string]func()) error {
 			continue
 		}
 		setupName := "Setup_" + strings.TrimPrefix(rf.Harness, "Harness_")
+		if rf.Setup != "" {
+			setupName = rf.Setup
+		}
 		if s, ok := setups[setupName]; ok && !done[setupName] {
 			done[setupName] = true
 			cur = nil
